@@ -125,6 +125,7 @@ def kf05_shape(text):
 def exhaustive(tier, flags):
     nmax_full = 2 if tier == "quick" else 3
     idx = 0
+    yield from chain_cases(tier)
     for n in range(1, 4):
         if n <= nmax_full:
             bins_pool, uns_pool = BIN_OPS, UN_OPS
@@ -141,6 +142,33 @@ def exhaustive(tier, flags):
                         yield make_case(tree, sp, "expr", "f2003" if idx % 2 else "f2008", idx)
                     if n <= 2 and any(o.startswith(".") for o in bops + uops):
                         yield make_case(tree, " ", "fixed", "f2003", idx)
+
+
+CHAIN_CLASSES = [["+", "-"], ["*", "/"], ["//"], [".and."], [".or."], [".eqv.", ".neqv."], [".myop.", ".x."], ["**"]]
+
+
+def chain_tree(ops, atoms):
+    """Flat chain a0 op1 a1 op2 a2 ...: left-associative, except ** which associates to the right."""
+    if ops and ops[0] == "**":
+        t = ("atom", atoms[-1])
+        for op, a in zip(reversed(ops), reversed(atoms[:-1])):
+            t = ("bin", op, ("atom", a), t)
+        return t
+    t = ("atom", atoms[0])
+    for op, a in zip(ops, atoms[1:]):
+        t = ("bin", op, t, ("atom", a))
+    return t
+
+
+def chain_cases(tier):
+    import sys
+    k = 0
+    for cls in CHAIN_CLASSES:
+        for n in ((12, 40, 52, 64) if tier == "quick" else (12, 40, 51, 52, 53, 64, 100, 130)):
+            k += 1
+            ops = [cls[(i * 7 + k) % len(cls)] for i in range(n - 1)]
+            atoms = [["a", "b2", "x_1", "arr(i)", "1.0e-3", "z1"][(i + k) % 6] + ("" if i % 3 else "") for i in range(n)]
+            yield make_case(chain_tree(ops, atoms), " " if k % 2 else "", "assign" if k % 3 == 0 else "expr", "f2003" if k % 2 else "f2008", k)
 
 
 def rand_tree(r, d):
@@ -171,6 +199,11 @@ def avoid_kf04(m):
 
 def build(rnd, tier, flags):
     r = gen.R(rnd)
+    if r.chance(5):
+        cls = r.pick(CHAIN_CLASSES)
+        n = r.n(8, 110)
+        tree = chain_tree([r.pick(cls) for _ in range(n - 1)], [r.pick(ATOMS[:12]) for _ in range(n)])
+        return make_case(tree, r.pick([" ", ""]), r.pick(["expr", "assign", "arg"]), r.pick(["f2003", "f2008"])), {}
     tree = rand_tree(r, r.n(2, 6))
     ctx = r.pick(["expr", "assign", "if", "arg", "subscript", "expr", "fixed"])
     root = tree
